@@ -53,7 +53,7 @@ func goIdle(inst reflect.Value) int {
 	return int(m.Call(nil)[0].Int())
 }
 
-func (c *Ctx) indCase(typeKey string, sp Spec, n int, withValues bool) {
+func (c *Ctx) indCase(typeKey string, sp Spec, n int, withValues bool) bool {
 	t := genTypes[typeKey]
 	inst, cfg, err := sp.Build()
 	if err != nil {
@@ -102,6 +102,7 @@ func (c *Ctx) indCase(typeKey string, sp Spec, n int, withValues bool) {
 	}
 	c.AddCase(term, CaseInfo{Subject: typeKey, Desc: fmt.Sprintf("%s n=%d idle=%d lens=%v hung=%v", cfg, n, idle, lens, hung),
 		Input: indInput{Type: typeKey, Spec: sp, Cfg: cfg, Idle: idle, N: n, Regime: reg, Inputs: ins, Lens: lens, Hung: hung}}, n > 0)
+	return hung
 }
 
 func runC02(c *Ctx) error {
@@ -139,10 +140,15 @@ func runC02(c *Ctx) error {
 			if !c.Thorough() && top > 26 {
 				top = 26
 			}
-			for n := 0; n <= top; n++ {
-				c.indCase(typeKey, sp, n, false)
+			hangs := 0
+			for n := 0; n <= top && hangs < 2; n++ { // a configuration that hangs (inadmissible ones may) is not swept further
+				if c.indCase(typeKey, sp, n, false) {
+					hangs++
+				}
 			}
-			c.indCase(typeKey, sp, top+7+c.Rng.IntN(20), false)
+			if hangs < 2 {
+				c.indCase(typeKey, sp, top+7+c.Rng.IntN(20), false)
+			}
 		}
 	}
 	return nil
